@@ -174,6 +174,7 @@ func render(v any) string {
 
 var (
 	reDate = regexp.MustCompile(`(greaterOrEquals|greater|lessOrEquals|less)\((?:\w+\.)?date, (?:toDate\()?'(\d{4}-\d\d-\d\d)'\)?\)`)
+	reDateIn = regexp.MustCompile(`in\((?:\w+\.)?date, (?:tuple\()?((?:'\d{4}-\d\d-\d\d'(?:, )?)+)\)`)
 	reTs   = regexp.MustCompile(`(greaterOrEquals|greater|lessOrEquals|less)\((?:\w+\.)?(?:timestamp_ns|start_time_unix_nano), (-?\d+)\)`)
 	reType = regexp.MustCompile(`in\((?:\w+\.)?type, `)
 	reKey  = regexp.MustCompile(`in\((?:\w+\.)?(?:fingerprint|trace_id|span_id), |in\(tuple\((?:\w+\.)?trace_id|equals\((?:\w+\.)?trace_id, `)
@@ -187,6 +188,8 @@ type whereInfo struct {
 	HasType              bool
 	KeyIn                bool
 	MentionsDate         bool
+	// DateSet: the days an `in(date, …)` condition enumerates (nil = no such condition)
+	DateSet map[chsql.Date]bool
 }
 
 func parseDate(s string) (chsql.Date, bool) {
@@ -222,6 +225,23 @@ func analyseWhere(w string) whereInfo {
 				wi.DateHi = d
 			}
 			wi.HasDateHi = true
+		}
+	}
+	for _, m := range reDateIn.FindAllStringSubmatch(w, -1) {
+		set := map[chsql.Date]bool{}
+		for _, q := range strings.Split(m[1], ", ") {
+			if d, ok := parseDate(strings.Trim(q, "'")); ok {
+				set[d] = true
+			}
+		}
+		if wi.DateSet == nil {
+			wi.DateSet = set
+		} else { // two enumerations: both must hold
+			for d := range wi.DateSet {
+				if !set[d] {
+					delete(wi.DateSet, d)
+				}
+			}
 		}
 	}
 	for _, m := range reTs.FindAllStringSubmatch(w, -1) {
